@@ -735,7 +735,10 @@ Definition v3_sem (fuel : nat) (y : yaml) : option config :=
    one has a `_refuted` theorem with a witness in V2Proofs.v (DESIGN.md 4.2).
      (H1, "no floating point field type carries `byte-order`", was needed until fix 3990a98 of /repo; the
       witness w_real_byte_order is now a regression input that must behave like its twin)
-     H2  no structure has `fields: null`; a header structure that is given has `fields`  (w_fields_null)
+     (H2, "no structure has `fields: null`; a header structure that is given has `fields`", was needed until fix
+      616725c of /repo; w_fields_null / w_header_no_fields are now regression inputs.  What remains of
+      ft_conv_ok / hdr_ok is a shape constraint of schemas/config/2: a member of a structure is a field type
+      object, never null — `v2_ft fuel y = Some f` alone implies ft_conv_ok (V2Proofs.v2_ft_conv_ok))
      H3  no `packet_seq_num` member                                              (w_seq_num)
      H4  every timestamp member of a stream is an integer mapped to the stream's one clock  (w_mixed_clocks)
      H5  no packet header member besides magic/uuid/stream_id, no event header member besides id/timestamp (w_header_members)
@@ -753,7 +756,7 @@ Fixpoint ft_conv_ok (fuel : nat) (y : yaml) : bool :=
                 match lookup "element-type" l with Some e => ft_conv_ok fuel' e | None => false end
               else if one_of c ["struct"; "structure"] then
                 match lookup "fields" l with
-                | None => true
+                | None | Some YNull => true
                 | Some (YMap fl) => forallb (fun kv => ft_conv_ok fuel' (snd kv)) fl
                 | Some _ => false
                 end
@@ -789,14 +792,14 @@ Definition ts_ok (c : option string) (o : option ft) : bool :=
   | Some _ => false
   end.
 
-(* a header structure that may be absent / null: when given it must have `fields` (possibly null) *)
+(* a header structure that may be absent / null: its members, if any, are field type objects *)
 Definition hdr_ok (fuel : nat) (t : option yaml) : bool :=
   match t with
   | None => true
   | Some (YMap tl) =>
       match lookup "fields" tl with
       | Some (YMap fl) => forallb (fun kv => ft_conv_ok fuel (snd kv)) fl
-      | Some YNull => true
+      | Some YNull | None => true
       | _ => false
       end
   | Some _ => false
